@@ -53,6 +53,7 @@ class Container:
     kind: str = 'expr'
     seps: tuple = (', ',)
     one: Callable[[str], str] = lambda e: e  # code for a single-element put
+    weight: int = 1                          # relative number of iterations (interleaving-heavy containers get more)
 
 
 def _join(els, sep=', '):
@@ -165,7 +166,7 @@ CONTAINERS: list[Container] = [
     Container('Call.args', 'Call', 'args', E_SIMPLE + ['*st'],
               lambda e: f'{PRE}fn({_join(e)}){POST}', lambda e: _seq(e), 'm.body[1].value'),
     Container('Call._args', 'Call', '_args', E_KW,
-              lambda e: f'{PRE}fn({_join(e)}){POST}', lambda e: _join(e), 'm.body[1].value', valid=_kw_valid),
+              lambda e: f'{PRE}fn({_join(e)}){POST}', lambda e: _join(e), 'm.body[1].value', valid=_kw_valid, weight=5),
     Container('Dict._all', 'Dict', '_all', E_DICT,
               lambda e: f'{PRE}v = {{{_join(e)}}}{POST}', lambda e: f'{{{_join(e)}}}', 'm.body[1].value', one_ok=False),
     Container('Delete.targets', 'Delete', 'targets', E_DEL,
@@ -198,7 +199,7 @@ CONTAINERS: list[Container] = [
               lambda e: _seq(e), 'm.body[1]'),
     Container('ClassDef._bases', 'ClassDef', '_bases', E_BASES,
               lambda e: f'{PRE}class C({_join(e)}):\n    pass{POST}' if e else f'{PRE}class C:\n    pass{POST}',
-              lambda e: _join(e), 'm.body[1]', valid=_kw_valid),
+              lambda e: _join(e), 'm.body[1]', valid=_kw_valid, weight=5),
     Container('arguments._all', 'arguments', '_all', E_ARGS,
               lambda e: f'{PRE}def fn({_join(e)}):\n    pass{POST}', lambda e: _join(e), 'm.body[1].args', valid=_args_valid, kind='args'),
     Container('Lambda.arguments._all', 'arguments', '_all', ['a', 'b', 'd=1', '*args', 'k', '**kw', 'f=None'],
